@@ -275,22 +275,45 @@ func (c *Ctx) ruleWKTNoOverflow(rule string) {
 	R, P := c.R, c.P
 	R.Rule(rule, "in every protojson function that reads or stores Duration/Timestamp seconds or nanos, each multiplication or left shift of non-constant 64-bit integers is shown by interval arithmetic (documented field ranges, 32-bit operand types, constants) to fit in int64", 4)
 	const maxI64 = float64(9223372036854775807)
+	// WKT conversion functions: those that mention a ranged field constant, and
+	// the package's own helpers they call (parseDuration computes the seconds
+	// that unmarshalDuration stores)
+	isRanged := func(fi *FuncInfo) bool {
+		if fi.Decl.Body == nil {
+			return false
+		}
+		info := fi.Info()
+		ks := map[string]bool{}
+		genidConstsIn(fi.Decl.Body, info, localDefs(fi.Decl.Body, info), 0, ks)
+		for k := range ks {
+			if _, ok := wktRanges[k]; ok {
+				return true
+			}
+		}
+		return false
+	}
+	helpers := map[string]bool{}
+	for _, fi := range P.FuncsIn("encoding/protojson") {
+		if !isRanged(fi) {
+			continue
+		}
+		info := fi.Info()
+		walkAll(fi.Decl.Body, func(n ast.Node) bool {
+			if call, ok := n.(*ast.CallExpr); ok {
+				if k := calleeKey(info, call); strings.HasPrefix(k, "encoding/protojson.") && !strings.Contains(k, "coder.") {
+					helpers[k] = true
+				}
+			}
+			return true
+		})
+	}
 	for _, fi := range P.FuncsIn("encoding/protojson") {
 		if fi.Decl.Body == nil {
 			continue
 		}
 		info := fi.Info()
 		defs := localDefs(fi.Decl.Body, info)
-		// is this a WKT conversion function? it mentions a ranged field constant
-		ks := map[string]bool{}
-		genidConstsIn(fi.Decl.Body, info, defs, 0, ks)
-		ranged := false
-		for k := range ks {
-			if _, ok := wktRanges[k]; ok {
-				ranged = true
-			}
-		}
-		if !ranged {
+		if !isRanged(fi) && !helpers[fi.Key] {
 			continue
 		}
 		// magnitude bound of an expression (absolute value), ok=false if unknown
@@ -382,7 +405,20 @@ func (c *Ctx) ruleWKTNoOverflow(rule string) {
 					okB = false
 				}
 			}
+			// an accumulator: one operand is a variable that is assigned this very product
+			accum := ""
+			for _, side := range []ast.Expr{be.X, be.Y} {
+				if id, ok := unparen(side).(*ast.Ident); ok {
+					for _, d := range defs[info.Uses[id]] {
+						if d.rhs.Pos() <= be.Pos() && be.End() <= d.rhs.End() {
+							accum = id.Name
+						}
+					}
+				}
+			}
 			switch {
+			case accum != "" && (!okA || !okB):
+				R.Bad(rule, construct, P.Pos(be), "`"+accum+"` accumulates "+exprStr(be)+" over the digits of the input with no bound on their number and no overflow test: an integer part that does not fit in int64 wraps around, and only the wrapped value reaches the range check, so out-of-range input is accepted as some in-range value")
 			case !okA || !okB:
 				R.Unk(rule, construct, P.Pos(be), "no bound known for an operand of "+exprStr(be)+": cannot show that the product fits in int64")
 			case a*b > maxI64:
